@@ -21,6 +21,8 @@ DOMAINS = [
     ("AndersonCD", "Quadratic", "L1+", "denseF"), ("AndersonCD", "Quadratic", "L1+", "csc"),
     ("AndersonCD", "Quadratic", "L1_plus_L2+", "denseF"), ("AndersonCD", "Quadratic", "WeightedL1+", "denseF"),
     ("AndersonCD", "Quadratic", "MCPenalty+", "denseF"), ("AndersonCD", "Quadratic", "PositiveConstraint", "denseF"),
+    ("AndersonCD", "Quadratic", "WeightedMCPenalty+0", "denseF"), ("AndersonCD", "Quadratic", "WeightedMCPenalty+0", "csc"),
+    ("AndersonCD", "Quadratic", "WeightedL1+", "csc"),
     ("AndersonCD", "Logistic", "L1+", "denseF"), ("AndersonCD", "Huber", "L1+", "denseF"),
     ("AndersonCD", "QuadraticSVC", "IndicatorBox", "denseF"), ("AndersonCD", "QuadraticSVC", "IndicatorBox", "csc"),
     ("GramCD", None, "L1+", "denseF"), ("GramCD", None, "WeightedL1+", "denseF"), ("GramCD", None, "MCPenalty+", "denseF"),
